@@ -50,7 +50,10 @@ func storages(t string) []*D {
 	}
 	if r.IsInt() && r.Num().IsInt64() {
 		n := r.Num().Int64()
-		out = append(out, h.Int("int", n), h.Int("int32", n%(1<<31)))
+		out = append(out, h.Int("int", n))
+		if n > -(1<<31) && n < 1<<31 {
+			out = append(out, h.Int("int32", n))
+		}
 		if n >= 0 && n < 256 {
 			out = append(out, h.Int("uint8", n))
 		}
